@@ -530,6 +530,8 @@ def _native_one_L(nat, seed, L, reps, L_ref, L_py, L_single):
             xs2, ws2 = roots_legendre(t2)
             nat.check("grid", np.concatenate([s2.phi, s2.cos_theta, s2.weights, np.cos(th2[:, 0]), ph2[0, :], [s2.nphi, s2.ntheta]]),
                       np.concatenate([2 * np.pi * np.arange(n2) / n2, xs2, 2 * np.pi * ws2, xs2, 2 * np.pi * np.arange(n2) / n2, [n2, t2]]), inp2)
+            s3 = SHT(L, n2, t2)          # the documented order of the optional arguments: SHT(l_max, nphi, ntheta)
+            nat.check("grid", [s3.nphi, s3.ntheta] + list(np.shape(s3.grid[0])), [n2, t2, t2, n2], dict(inp2, grid="passed positionally: SHT(l_max, nphi, ntheta)"))
             c2 = random_real_coeffs(np.random.default_rng([seed, L, 77]), L)
             v2 = s2.synthesis(c2)
             nat.check("roundtrip_real_as", s2.analysis(v2), c2, inp2)
@@ -625,6 +627,13 @@ def _native_one_L(nat, seed, L, reps, L_ref, L_py, L_single):
                     wantp[plm_index(L, m, l)] = sgn(m) * tab1[l * (l + 1) + m, 0]
             nat.check("plm_compiled", CyAL(L).evaluate_batch(xq), wantp, dict(inp, x=xq))
             nat.check("plm_python", PyAL(L).evaluate_batch(xq), wantp, dict(inp, x=xq))
+            # the pure-Python reference exactly at the poles: Pbar_l^0(+-1) = (+-1)^l sqrt((2l+1)/(4 pi)), every m > 0 term vanishes
+            for xpole in (1.0, -1.0):
+                wantpole = np.zeros(nplm(L))
+                for l in range(L + 1):
+                    wantpole[plm_index(L, 0, l)] = (xpole ** l) * np.sqrt((2 * l + 1) / (4 * np.pi))
+                with quiet_stderr():
+                    nat.check("plm_python", PyAL(L).evaluate_batch(xpole), wantpole, dict(inp, x=xpole))
             if L >= 1:
                 fc = ref_on_grid(L, cc, table, ph[0, :])
                 nat.check("ref_cplx_synthesis", vc, fc, inp)
